@@ -400,8 +400,8 @@ func (w *c13World) apply(r *Rec, op string) (out string) {
 		w.app.AppCodec().MustUnmarshal(unhx(f[1]), &ir)
 		ck.RegisterRelayers(w.ctx, ir.Address, ir.Chains, ir.Addresses)
 		return "ok"
-	case "create", "toggle":
-		// proposal level: Create/ToggleClientProposal.ValidateBasic runs ClientState.Validate() before the keeper is reached;
+	case "create", "toggle", "upgrade":
+		// proposal level: Create/Toggle/UpgradeClientProposal.ValidateBasic runs ClientState.Validate() before the keeper is reached;
 		// a failing keeper call is reverted with its transaction
 		chain := string(unhx(f[2]))
 		cs := w.unCS(unhx(f[3]))
@@ -415,9 +415,12 @@ func (w *c13World) apply(r *Rec, op string) (out string) {
 			ctx = ctx.WithBlockTime(time.Unix(0, int64(pu(f[9]))))
 		}
 		var err error
-		if f[0] == "create" {
+		switch f[0] {
+		case "create":
 			err = ck.CreateClient(ctx, chain, cs, cons)
-		} else {
+		case "upgrade":
+			err = ck.UpgradeClient(ctx, chain, cs, cons)
+		default:
 			err = ck.ToggleClient(ctx, chain, cs, cons)
 		}
 		if err != nil {
@@ -1080,14 +1083,15 @@ type c13Client struct {
 
 // create / toggle are proposal-level operations: they may be rejected (ClientState.Validate, Initialize)
 func c13MayFail(op, out string) bool {
-	return out == "err" && (strings.HasPrefix(op, "create ") || strings.HasPrefix(op, "toggle "))
+	return out == "err" && (strings.HasPrefix(op, "create ") || strings.HasPrefix(op, "toggle ") || strings.HasPrefix(op, "upgrade "))
 }
 
 type c13Fix struct {
 	set    bool
 	rev, h uint64
 	nval   int // bsc: number of validators in the epoch header (-1 = random)
-	verb   string // "create" (default) or "toggle"
+	verb   string // "create" (default), "toggle" or "upgrade"
+	mix    string // if set: the proposal carries a consensus state of THIS client type instead of the client's own
 }
 
 func (w *c13World) genCreate(r *Rec, ty, chain string, emit func(string)) *c13Client {
@@ -1179,6 +1183,19 @@ func (w *c13World) genCreateAt(r *Rec, ty, chain string, emit func(string), fx c
 	if fx.verb != "" {
 		verb = fx.verb
 	}
+	if fx.mix != "" && fx.mix != ty {
+		// mixed proposal: the Tendermint / BSC / ETH clients reject it, the TSS client accepts any consensus state
+		// (and stores none)
+		if fx.mix == "tss" {
+			cons = &tsstypes.ConsensusState{}
+		} else {
+			cons = w.genConsFor(r, &c13Client{ty: fx.mix}, clienttypes.NewHeight(rev, h))
+		}
+		r.Count(verb + ".mixed")
+		if ty == "tss" {
+			r.Count(verb + ".tss-client-other-consensus")
+		}
+	}
 	emit(fmt.Sprintf(verb+" %s %s %s %s %s %s %d %d %s", ty, hxs(chain), hx(w.csBlob(cs)), b01(cs.Validate() == nil),
 		hx(w.consBlob(cons)), b01(cons.ValidateBasic() == nil), rev, h, extra))
 	cl.failed = w.lastOut == "err"
@@ -1227,7 +1244,15 @@ func (w *c13World) genHistory(r *Rec, emit func(string), size int) {
 	var clients []*c13Client
 	ncl := r.Rng.Intn(size + 1)
 	for i := 0; i < ncl; i++ {
-		if cl := w.genCreate(r, ntypes[r.Rng.Intn(4)], c13Name(r, used), emit); !cl.failed {
+		fx := c13Fix{nval: -1}
+		ty := ntypes[r.Rng.Intn(4)]
+		if r.Rng.Intn(6) == 0 {
+			fx.mix = ntypes[r.Rng.Intn(4)]
+			if r.Rng.Intn(2) == 0 {
+				ty = "tss"
+			}
+		}
+		if cl := w.genCreateAt(r, ty, c13Name(r, used), emit, fx); !cl.failed {
 			clients = append(clients, cl)
 		}
 	}
@@ -1288,13 +1313,35 @@ func (w *c13World) genHistory(r *Rec, emit func(string), size int) {
 			r.Count("prune")
 		}
 	}
+	// UpgradeClient: a new client state of the SAME type (TSS -> TSS included); sometimes with a consensus state of another type
+	for _, cl := range clients {
+		if r.Rng.Intn(4) != 0 && !(cl.ty == "tss" && r.Rng.Intn(2) == 0) {
+			continue
+		}
+		fx := c13Fix{nval: -1, verb: "upgrade"}
+		if r.Rng.Intn(3) == 0 {
+			fx.mix = ntypes[r.Rng.Intn(4)]
+		}
+		ty := cl.ty
+		if r.Rng.Intn(10) == 0 {
+			ty = ntypes[r.Rng.Intn(4)] // mostly another type: rejected
+		}
+		w.genCreateAt(r, ty, cl.chain, emit, fx)
+	}
 	// ToggleClient (repaired: clears the replaced client's store, then creates the client of the other type)
 	for _, cl := range clients {
 		if r.Rng.Intn(5) != 0 {
 			continue
 		}
 		nt := ntypes[r.Rng.Intn(4)]
-		ncl := w.genCreateAt(r, nt, cl.chain, emit, c13Fix{nval: -1, verb: "toggle"})
+		tfx := c13Fix{nval: -1, verb: "toggle"}
+		if r.Rng.Intn(5) == 0 {
+			tfx.mix = ntypes[r.Rng.Intn(4)]
+			if r.Rng.Intn(2) == 0 {
+				nt = "tss"
+			}
+		}
+		ncl := w.genCreateAt(r, nt, cl.chain, emit, tfx)
 		if ncl.failed {
 			continue // same type, or rejected by Validate / Initialize: nothing changed
 		}
@@ -1492,6 +1539,30 @@ func c13WriteCorpus(t *testing.T, r *Rec, dir string) {
 		}},
 		{"fixed-bsc-no-validators-rejected", func(emit func(string)) {
 			w.genCreateAt(r, "bsc", "bsc-empty", emit, c13Fix{set: true, rev: 0, h: 200, nval: 0})
+		}},
+		{"tss-upgrade-no-consensus-state", func(emit func(string)) {
+			// /repo 6c33891: no consensus state is stored for a TSS client on create, upgrade or toggle, whatever consensus state
+			// the proposal carries (before: UpgradeClient of a TSS client and a TSS client created with a non-TSS consensus state
+			// stored one at the zero height, and the export failed Validate)
+			w.genCreateAt(r, "tss", "N00", emit, c13Fix{nval: -1})
+			w.genCreateAt(r, "tss", "N00", emit, c13Fix{nval: -1, verb: "upgrade"})
+			w.genCreateAt(r, "tss", "N01", emit, c13Fix{nval: -1, mix: "tm"})
+			w.genCreateAt(r, "tss", "N01", emit, c13Fix{nval: -1, verb: "upgrade", mix: "bsc"})
+			cl := w.genCreateAt(r, "tm", "N02", emit, c13Fix{set: true, rev: 0, h: 5, nval: -1})
+			upd(emit, cl, 0, 6)
+			w.genCreateAt(r, "tss", "N02", emit, c13Fix{nval: -1, verb: "toggle", mix: "tm"})
+			// same-type upgrades of the other client types, and mixed proposals they reject
+			e := w.genCreateAt(r, "eth", "N03", emit, c13Fix{set: true, rev: 0, h: 100, nval: -1})
+			upd(emit, e, 0, 101)
+			w.genCreateAt(r, "eth", "N03", emit, c13Fix{set: true, rev: 0, h: 200, nval: -1, verb: "upgrade"})
+			w.genCreateAt(r, "eth", "N03", emit, c13Fix{set: true, rev: 0, h: 300, nval: -1, verb: "upgrade", mix: "tss"})
+			b := w.genCreateAt(r, "bsc", "N04", emit, c13Fix{set: true, rev: 0, h: 400, nval: 2})
+			upd(emit, b, 0, 401)
+			w.genCreateAt(r, "bsc", "N04", emit, c13Fix{set: true, rev: 0, h: 600, nval: 3, verb: "upgrade"})
+			w.genCreateAt(r, "tm", "N05", emit, c13Fix{set: true, rev: 1, h: 47, nval: -1, mix: "eth"})
+			t := w.genCreateAt(r, "tm", "N06", emit, c13Fix{set: true, rev: 1, h: 47, nval: -1})
+			upd(emit, t, 1, 48)
+			w.genCreateAt(r, "tm", "N06", emit, c13Fix{set: true, rev: 1, h: 303, nval: -1, verb: "upgrade"})
 		}},
 		{"toggle-to-tss", func(emit func(string)) {
 			// ToggleClient to a TSS client must not store a consensus state (TSS latest height is 0-0)
